@@ -265,6 +265,20 @@ def run_query(q, shape, scratch_root, tier):
             return r
         if r.failed:
             r.status = 'fail'
+            # --slice-formula drops the inputs that do not matter to the failed obligation from the trace; for a
+            # replayable query re-run the failed obligations unsliced to get every kv_in_*() value in call order
+            replayable = q.get('replayable', q['cls'] == 'B' or not q.get('loop_contracts'))
+            if replayable and '--slice-formula' in cb:
+                cb2 = [x for x in cb if x != '--slice-formula']
+                for (name, _d, _l) in r.failed[:3]:
+                    cb2 += ['--property', name]
+                outp2 = os.path.join(sdir, 'out2.json')
+                rc2, _, _, _ = sh(cb2, timeout=tmo, mem_gb=q.get('mem_gb', 12), stdout_path=outp2)
+                p2 = parse_cbmc_json(outp2)
+                if p2[0] is not None:
+                    for o in p2[0]:
+                        if o.get('status') == 'FAILURE' and 'trace' in o:
+                            r.trace_inputs[o.get('property', '')] = trace_inputs(o['trace'])
             return r
         if undec:
             r.reason = 'undecided obligations (bound too small / unknown): ' + ', '.join(undec[:6])
@@ -521,7 +535,7 @@ def write_evidence(prop, tier, seed, pinfo, results, facts, violations, undecide
         distinct_nontrivial=len(set(r.qid for r in results if r.reach_ok)) + sum(1 for f in facts if f['status'] == 'pass'),
         rule='one evaluation = one CBMC query (contract x shape) or one static fact; non-trivial = its must-fail reachability obligation KV_REACH fired (harness not vacuous) / the fact scanned >0 sites',
         samples=samples,
-        explanation=pinfo.get('explanation', ''),
+        explanation=pinfo.get('explanation') or pinfo.get('level_text', 'see MANIFEST level_text'),
         extraction=[rep for r in results[:200] for rep in r.inject_reports][:20],
         solver_seconds_total=round(sum(r.solver_s for r in results), 1),
         undecided=undecided,
